@@ -294,6 +294,16 @@ static void do_X(char *line)
     free(buf); free(s); free(suf);
 }
 
+/* K <hex> : is_tld() alone on the string (cheap table look-up probe) */
+static void do_K(char *line)
+{
+    size_t n;
+    char *s = hexdup(line + 2, &n);
+    g_stage = "is_tld";
+    printf("%d\n", is_tld(s, s + n));
+    free(s);
+}
+
 static void do_L(char *line)
 {
     size_t n;
@@ -497,6 +507,7 @@ int main(void)
         case 'A': do_A(line); break;
 #ifndef HAVE_IDNKIT
         case 'L': do_L(line); break;
+        case 'K': do_K(line); break;
         case 'X': do_X(line); break;
         case 'D': do_D(line); break;
         case 'N': do_N(line); break;
